@@ -168,6 +168,9 @@ func checkC06(rep *Report, pool *DriverPool, c *CCase) {
 	}
 	o, h := readContainer(w.Set.API, !fromStd, out, dict, c.Reads, c.RSeed)
 	rep.DigestR(c.ID, &o)
+	if fromStd && w.Set.API != "flate" {
+		compareContainerModel(rep, pool, c, w.Set.API, true, dict, w.Set.Dict != nil, out, &o, -1)
+	}
 	if o.Panic != "" || o.Hang {
 		rep.Violate("panic", "", o.Panic, c)
 		return
@@ -313,6 +316,7 @@ func checkC07(rep *Report, pool *DriverPool, c *CCase) {
 		rep.Violate("panic-or-hang", "", o.Panic, c)
 		return
 	}
+	compareContainerModel(rep, pool, c, api, true, dict, w.Set.Dict != nil, in, &o, -1)
 	if c.Cut >= 0 && len(c.Flip) == 0 && len(c.Subst) == 0 {
 		// truncated inside the member: unexpected EOF after nothing but a prefix of the payload
 		if !isPrefix(o.Bytes, payload) {
@@ -508,6 +512,7 @@ func checkC08(rep *Report, pool *DriverPool, c *CCase) {
 	if len(trail) == 0 {
 		o := RunR("gzip", false, all, nil, SrcSpec{Kind: "bufio", Buf: c.Buf, Chunk: "rand", Seed: c.RSeed, Term: "eof"}, "new", nil, c.Reads, c.RSeed, 0)
 		rep.DigestR(c.ID, &o)
+		compareContainerModel(rep, pool, c, "gzip", true, nil, false, all, &o, -1)
 		if o.Panic != "" || o.Hang || o.CtorErr != "" || o.Err != "EOF" || !bytes.Equal(o.Bytes, concat) {
 			rep.Violate("concatenation", "", fmt.Sprintf("default mode: ctor=%q panic=%q %d bytes, %s; expected the %d bytes of all members then EOF (first difference %d)", o.CtorErr, o.Panic, len(o.Bytes), o.Err, len(concat), firstDiff(o.Bytes, concat)), c)
 			return
